@@ -731,10 +731,13 @@ class SyncState:  # pylint: disable=too-many-instance-attributes, too-many-publi
                     ent = SyncEntry(self, None, (eid, ent_ser))
                     for side in [LOCAL, REMOTE]:
                         path, oid = ent[side].path, ent[side].oid
-                        if path not in self._paths[side]:
-                            self._paths[side][path] = {}
-                        self._paths[side][path][oid] = ent
-                        self._oids[side][oid] = ent
+                        # index exactly what the live state indexes: a side without an id is in neither index
+                        if oid is not None:
+                            if path:
+                                if path not in self._paths[side]:
+                                    self._paths[side][path] = {}
+                                self._paths[side][path][oid] = ent
+                            self._oids[side][oid] = ent
                         if ent[side].changed:
                             self._changeset_storage.add(ent)
                 except Exception as e:
